@@ -173,6 +173,25 @@ def check_setting(part, row, table_by_number):
                           % (sk, found.international_tables_number, found.choice), case)
         except Exception as e:
             part.fail("lookup-reduced-raise:%s" % sk, "LATT+SYMM round trip of %s raised %s" % (sk, type(e).__name__), case)
+        # one list OBJECT handed over repeatedly (a program that reads the SYMM cards once and looks the group up wherever it needs it),
+        # also to the expansion helper in between: every lookup names the same setting
+        for route in ("lookup,lookup", "expand,lookup", "lookup,expand,lookup"):
+            mine = list(red)
+            try:
+                answers = []
+                for step in route.split(","):
+                    part.trace()
+                    if step == "lookup":
+                        f = SpaceGroup.from_symmetry_operations(mine, expand_latt=latt)
+                        answers.append((f.international_tables_number, sorted(int(x.integer_code) for x in f.symmetry_operations) == sorted(codes)))
+                    else:
+                        ex = expanded_symmetry_list(mine, latt)
+                        answers.append((n, sorted(set(int(x.integer_code) for x in ex)) == sorted(codes) and len(ex) == len(codes)))
+                if any(a != (n, True) for a in answers):
+                    part.fail("lookup-reduced-same-list:%s" % sk, "the reduced list of %s (one list object) handed over as %s: answers %s, expected the setting %d with its full "
+                              "operation list every time" % (sk, route, answers, n), case)
+            except Exception as e:
+                part.fail("lookup-reduced-same-list-raise:%s" % sk, "the reduced list of %s (one list object) handed over as %s raised %s" % (sk, route, type(e).__name__), case)
         # the same reduced description in other orders (the description is a set: identity written last, in the middle, list reversed)
         rl = list(red)
         ident = [x for x in rl if x.is_identity()]
